@@ -160,8 +160,15 @@ def run(ctx):
     # R4
     sch = m.get_function('loki/batch/scheduler.py', 'Scheduler.process_transformation')
     src = ast.unparse(sch.node)
-    (ctx.judge('R4', 'plan_mode from strategy') if X.has(src, "'plan_mode': proc_strategy == ProcessingStrategy.PLAN") else
-     ctx.violation('R4', 'process_transformation:plan_mode', sch.where, 'plan_mode is not derived from the processing strategy'))
+    pm = [ast.unparse(v) for d in ast.walk(sch.node) if isinstance(d, ast.Dict) for k_, v in zip(d.keys, d.values)
+          if isinstance(k_, ast.Constant) and k_.value == 'plan_mode'] + \
+         [ast.unparse(k_.value) for c_ in ast.walk(sch.node) if isinstance(c_, ast.Call) for k_ in c_.keywords if k_.arg == 'plan_mode']
+    if not pm:
+        raise AnalysisError('process_transformation: the value handed on as plan_mode was not found')
+    strat = [a.arg for a in sch.node.args.args + sch.node.args.kwonlyargs if 'strategy' in a.arg]
+    okpm = all(any(s_ in v for s_ in strat) and 'ProcessingStrategy.PLAN' in v and '==' in v for v in pm)
+    (ctx.judge('R4', 'plan_mode from strategy', facts={'plan_mode': pm}) if okpm else
+     ctx.violation('R4', 'process_transformation:plan_mode', sch.where, f'plan_mode is `{pm}`, not derived from the processing strategy (== ProcessingStrategy.PLAN)'))
     T = m.get_class('loki/batch/transformation.py', 'Transformation')
     n = 0
     for meth in ('apply_file', 'apply_subroutine', 'apply_module'):
